@@ -73,7 +73,7 @@ def h_agg(k0: int, k1: int, k2: int, k3: int, k4: int, k5: int, n0: int, bad: in
 
 
 # ---- sum ---------------------------------------------------------------------
-NUM_POOL = (1, 1.0, True, 0, 0.0, False, -1, 2.5, 3, -0.5)
+NUM_POOL = (1, 1.0, True, 0, 0.1, False, -1, 2.5, 0.2, 0.3)
 
 
 def _pre_sum(n, s0, s1, s2, s3, ss):
@@ -129,8 +129,13 @@ def h_sum_pool(n: int, s0: int, s1: int, s2: int, s3: int, ss: int):
     with _no_tracing():
         rs = call_sync(builtins.sum, list(vals), *args)
         ok = ra[0] == "ok" and rs[0] == "ok" and type(ra[1]) is type(rs[1]) and ra[1] == rs[1]
+        rounding_only = (not ok) and ra[0] == "ok" and rs[0] == "ok" and type(ra[1]) is float and type(rs[1]) is float and abs(ra[1] - rs[1]) <= 1e-12 * max(1.0, abs(rs[1]))
     if not ok:
-        fail("sum:pool-value-differs", (vals, args, ra, rs))
+        if rounding_only:
+            # CPython >= 3.12 sums floats with compensated (Neumaier) summation
+            ok = fail("sum:float-rounding-differs-from-builtin-compensated-summation", (vals, args, ra, rs))
+        else:
+            fail("sum:pool-value-differs", (vals, args, ra, rs))
     return finish(ok, len(vals) >= 2, ("sum_pool", len(vals), len(args)))
 
 
